@@ -705,6 +705,7 @@ TLAPS_MODULES = {
     "disj": ("MapProofDisj.tla",),
     "bulk": ("MapProofId.tla", "MapProofBulk.tla"),
     "adv": ("MapProofAdv.tla",),
+    "panic": ("MapProofPanic.tla",),
 }
 
 
@@ -838,6 +839,8 @@ def run_check(pid, tier, seed):
         summary["tlaps_inductive_invariant"] = tlaps_proof("bulk")
     if pid == "C17":
         summary["tlaps_inductive_invariant"] = tlaps_proof("adv")
+    if pid == "C04":
+        summary["tlaps_inductive_invariant"] = tlaps_proof("panic")
     if pid == "C08":
         summary["tlaps_inductive_invariant"] = tlaps_proof("alg")
     if pid == "C14":
